@@ -163,6 +163,19 @@ def gen(tier, rng):
                     cases.append(rz.img_case(op, pt, w, 3, src_c=cont, dst_c=cont if op.endswith("_inplace") else None,
                                              src_lay={"k": "image_ref", "guard": 1}, dst_lay={"k": "slice", "guard": 1}, cpu=cpu, log=log,
                                              chk=("ret_ok", "outside") + ((chk,) if cpu != "none" else ()), g=g, echo=echo))
+                if info["comp"] != "f32":
+                    # adversarial pairs: tiny and extreme alphas under full-range colours (quotients far beyond the range)
+                    g += 1
+                    r2 = random.Random(seed + 1)
+                    mx, nc = info["max"], info["nc"]
+                    vals = []
+                    for _ in range(w * 3):
+                        vals += [r2.choice([r2.randint(0, mx), mx, mx // 2 + 1, mx // 2 + 2]) for _ in range(nc - 1)] + [r2.choice([0, 1, 1, 2, 3, 254, 255, mx - 1, mx])]
+                    cont2 = {"g": "data", "v": vals}
+                    for cpu in rz.CPUS:
+                        cases.append(rz.img_case(op, pt, w, 3, src_c=cont2, dst_c=cont2 if op.endswith("_inplace") else None,
+                                                 src_lay={"k": "image_ref", "guard": 1}, dst_lay={"k": "slice", "guard": 1}, cpu=cpu, log=log,
+                                                 chk=("ret_ok", "outside") + ((chk,) if cpu != "none" else ()), g=g, echo=echo))
     return cases
 
 
